@@ -52,17 +52,24 @@ func famShadow(r *rand.Rand, idx int) caseInput {
 	for i := r.Intn(4); i > 0; i-- {
 		e.aluOp()
 	}
+	// every fourth case: two branches in flight - a late-resolving outer branch whose shadow starts
+	// with a slow register writer followed by a younger branch that resolves at once
+	nested := idx%4 == 1
 	// optionally pre-touch line B / C so that shadow accesses hit
-	if r.Intn(2) == 0 {
+	if !nested && r.Intn(2) == 0 {
 		e.emit("lw t4, 0(s1)")
 	}
-	if r.Intn(3) == 0 {
+	if !nested && r.Intn(3) == 0 {
 		e.emit("lw t4, 0(s2)")
 	}
 	kind := r.Intn(10) // 0-6 conditional, 7 j, 8 jal, 9 jalr
 	shadowLen := 1 + r.Intn(6)
 	join := e.newLabel()
 	late := r.Intn(2) == 0 // branch operand comes from a cache-missing load
+	if nested {
+		kind, late = r.Intn(7), true
+		shadowLen = 3 + r.Intn(4)
+	}
 	switch {
 	case kind <= 6:
 		// condition registers a0, a1
@@ -134,12 +141,38 @@ func famShadow(r *rand.Rand, idx int) caseInput {
 		e.emit("jalr %s, t5, 0", pick(r, []string{"zero", "t4"}))
 	}
 	// shadow
+	var innerLabels []string
 	for i := 0; i < shadowLen; i++ {
-		k := r.Intn(12)
+		k := r.Intn(15)
+		if nested && i == 0 {
+			k = pick(r, []int{14, 14, 14, 0})
+		}
+		if nested && i == 1 {
+			k = pick(r, []int{12, 12, 12, 13})
+		}
 		if !taken && k >= 8 && k <= 10 {
 			k = r.Intn(4) // no ill-formed instruction on the executed path
 		}
+		if kind == 9 && k >= 12 {
+			k = r.Intn(8) // the jalr variant needs exactly one instruction per shadow slot and no labels inside
+		}
+		// place pending inner labels one or two instructions after their branch
+		if len(innerLabels) > 0 && r.Intn(2) == 0 {
+			e.label(innerLabels[0])
+			innerLabels = innerLabels[1:]
+		}
 		switch k {
+		case 12:
+			// a younger branch inside the shadow, ready at once and taken, to a label further down the shadow
+			l := e.newLabel()
+			e.emit("%s", pick(r, []string{"beq zero, zero, " + l, "bgeu zero, zero, " + l, "bge a1, a1, " + l}))
+			innerLabels = append(innerLabels, l)
+		case 13:
+			// a younger branch inside the shadow that is not taken (it commits speculative state early)
+			e.emit("%s", pick(r, []string{"bne zero, zero, " + join, "bltu zero, zero, " + join, "blt a1, a1, " + join}))
+		case 14:
+			// slow wrong-path register writer: a load that misses
+			e.emit("lw %s, %d(%s)", e.reg(), 4*r.Intn(8), pick(r, []string{"s2", "s1"}))
 		case 0, 1, 2:
 			e.emit("%s %s, %s, %s", pick(r, []string{"add", "sub", "xor", "or"}), e.reg(), e.reg(), e.reg())
 		case 3:
@@ -161,10 +194,13 @@ func famShadow(r *rand.Rand, idx int) caseInput {
 			e.emit("addi %s, %s, %d", e.reg(), e.reg(), r.Intn(64))
 		}
 	}
+	for _, l := range innerLabels {
+		e.label(l)
+	}
 	e.label(join)
 	// suffix: make corruption observable
 	for i, d := range e.dr {
-		if r.Intn(2) == 0 {
+		if r.Intn(4) != 0 {
 			e.emit("sw %s, %d(s2)", d, 64+4*i)
 		}
 	}
